@@ -7,6 +7,7 @@
     the only unfinished source); the unrepaired loop of the pinned tree is kept
     as [next_pinned] for [interleaved_pinned_diverges].  Definitions only. *)
 From TU Require Import Base.
+From TU Require RNG_Model.
 
 Inductive strategy := Sequential | Interleaved | Weighted.
 Inductive err := OutOfFuel | BadOracle | AssertFail | CtorErr.
@@ -243,3 +244,110 @@ Definition agree_C07 (v m i : val) : bool :=
       else check_C07 v i && negb (shape_ctor_err i) && first_tag0 (v_list v_out (v_nth 1 i))
   | _ => val_eqb m i
   end.
+
+(** ** The weighted strategy computed from the seed (RNG_Model inside the model).
+
+    [next_idx], weighted arm, as the code runs it: the weights are the INITIAL lengths
+    ([self.lengths], taken from [len()] at construction) of the sources not yet finished,
+    [WeightedIndex::new(..).expect(..)], [self.rng.sample(dist)], the sampled position is mapped
+    through the unfinished indices.  The generator state is threaded through the drain;
+    [None] = the rejection loop of the uniform sampler ran out of its fuel (depends on the stream;
+    never observed, see notes/RNG.md). *)
+Definition unf_weights (lens unf : list nat) : list N := map (fun j => N.of_nat (nth j lens 0)) unf.
+
+Definition next_idx_seeded (lens : list nat) (st : RNG_Model.rng) (fin : list bool) (idx : nat)
+  : option (err + (nat * RNG_Model.rng)) :=
+  if all_fin fin then Some (inl AssertFail)
+  else if negb (idx <? length fin) then Some (inl AssertFail)
+  else
+    let unf := unfinished fin in
+    match RNG_Model.weighted_sample_n RNG_Model.lemire_fuel (unf_weights lens unf) st with
+    | inl _ => Some (inl AssertFail)               (* .expect("could not create line distribution") *)
+    | inr None => None
+    | inr (Some (p, st')) =>
+        match nth_error unf p with
+        | Some j => Some (inr (j, st'))
+        | None => Some (inl BadOracle)              (* index out of bounds; excluded by seeded_in_range *)
+        end
+    end.
+
+Section GenSeeded.
+Context {A : Type}.
+
+Fixpoint run_loop_s (lens : list nat) (fuel : nat) (srcs : list (list A)) (idx : nat)
+         (fin : list bool) (st : RNG_Model.rng) : option (res A) :=
+  match fuel with
+  | O => Some (Err OutOfFuel)
+  | S f =>
+    match nth_error srcs idx with
+    | None => Some (Err AssertFail)
+    | Some (x :: xs) =>
+        match next_idx_seeded lens st fin idx with
+        | None => None
+        | Some (inl e) => Some (Err e)
+        | Some (inr (idx', st')) =>
+            option_map (cons_res (idx, x)) (run_loop_s lens f (set_nth idx xs srcs) idx' fin st')
+        end
+    | Some [] =>
+        let fin' := set_nth idx true fin in
+        if all_fin fin' then Some (Ok [])
+        else match next_idx_seeded lens st fin' idx with
+             | None => None
+             | Some (inl e) => Some (Err e)
+             | Some (inr (idx', st')) => run_loop_s lens f srcs idx' fin' st'
+             end
+    end
+  end.
+
+(** [MultiTrainDataGenerator::new(generators, Weighted, Some(seed))] + drain *)
+Definition run_gen_seeded (seed : N) (srcs : list (list A)) : option (res A) :=
+  if existsb is_nil srcs then Some (Err CtorErr)
+  else run_loop_s (map (@length A) srcs) (gen_fuel srcs) srcs 0 (repeat false (length srcs))
+                  (RNG_Model.seed_from_u64 seed).
+End GenSeeded.
+
+(** val glue, second model line.
+    weighted cases: the seed (second field) now determines the model's stream;
+    rng cases (strat = 3): input = (3 (seed-hi seed-lo) script ()), see RNG_Model.v_call;
+    output = (results (block-hi block-lo offset)) *)
+Definition is_rng_case (v : val) : bool := Z.eqb (v_z (v_nth 0 v)) 3.
+Definition v_script (v : val) : list RNG_Model.call := v_list RNG_Model.v_call (v_nth 2 v).
+Definition run_rng (v : val) : val := RNG_Model.run_script (RNG_Model.v_hl (v_nth 1 v)) (v_script v).
+
+Definition res_v (srcs : list (list item)) (r : res item) : val :=
+  match r with
+  | Ok out => L [I 1%Z; list_v out_v out; I 1%Z; nat_v (total_len srcs)]
+  | Err CtorErr => L [I 0%Z]
+  | Err OutOfFuel => L [I (-1)%Z]
+  | Err BadOracle => L [I (-2)%Z]
+  | Err AssertFail => L [I (-3)%Z]
+  end.
+
+Definition run_C07s (v : val) : val :=
+  if is_rng_case v then run_rng v
+  else match v_strategy (v_nth 0 v) with
+       | Weighted =>
+           match run_gen_seeded (v_n (v_nth 1 v)) (v_srcs v) with
+           | Some r => res_v (v_srcs v) r
+           | None => RNG_Model.v_fuel
+           end
+       | _ => run_C07 v
+       end.
+
+Definition check_rng (v out : val) : bool :=
+  match out with
+  | L [L outs; L [I _; I _; I _]] => RNG_Model.check_calls (v_script v) outs
+  | _ => false
+  end.
+Definition check_C07s (v out : val) : bool :=
+  if is_rng_case v then check_rng v out else check_C07 v out.
+
+(** correspondence: rng scripts and the weighted strategy EXACT (the model computes the draws
+    from the seed); for weighted the relational acceptance (outcome set of the oracle model)
+    stays as a second line that must accept too. *)
+Definition agree_C07s (v m i : val) : bool :=
+  if is_rng_case v then val_eqb m i
+  else match v_strategy (v_nth 0 v) with
+       | Weighted => val_eqb m i && agree_C07 v (run_C07 v) i
+       | _ => val_eqb m i
+       end.
